@@ -558,7 +558,6 @@ def _op_getitem(rvs, ref, op, fails):
     from pharmpy.basic import Expr
     from pharmpy.model import RandomVariables
     kind = op['op']
-    k = len(ref['blocks'])
     if kind in ('getitem_int', 'getitem_str'):
         if kind == 'getitem_int':
             d = rvs[op['i']]
@@ -600,7 +599,6 @@ def _op_getitem(rvs, ref, op, fails):
     if got is not None and _names_of(got) != [n for n in _names_of(ref) if n in S]:
         fails.append((FID_GETITEM, 'getitem: selected variables keep their relative order',
                       'rvs[%r] of %r gives names %r' % (S, ref['blocks'], _names_of(got))))
-    del k
     return R
 
 
@@ -766,7 +764,6 @@ def _ops_for(ref, what='all'):
     """enumerate the operation descriptors for a collection; what: 'all' | 'first' | 'second'"""
     names = _names_of(ref)
     k = len(ref['blocks'])
-    numeric = all(_isnum(v) for v in ref['cov'].values())
     # unjoin
     for S in _subsets(names):
         yield {'op': 'unjoin', 'S': S, 'form': 'list'}
@@ -857,7 +854,6 @@ def _ops_for(ref, what='all'):
             for S in _subsets(b):
                 for form in ('list', 'rev', 'set', 'tuple'):
                     yield {'op': 'jget', 'block': bi, 'kind': form, 'index': S}
-    del numeric
 
 
 def _alg_cases(desc, part):
@@ -1428,7 +1424,6 @@ def _mk_model(ref, rvs, values):
 
 
 def _chk_model(inp):
-    from pharmpy.model import Model, Parameter, Parameters
     rvs, ref = _ref_only(inp['coll'])
     v0 = dict(inp['values'])
     v0['THETA_X'] = 7.0
@@ -1449,7 +1444,6 @@ def _chk_model(inp):
             fails.append((FID_CANON, prefix + ': no internal error', '%s: %s for %s' % (type(e).__name__, e, what)))
             continue
         _chk_nearest_result(fails, FID_CANON, prefix, ref, v0, new, what)
-    del Model, Parameter, Parameters
     return fails
 
 
